@@ -58,13 +58,14 @@ PROPS["C03"] = dict(
           "fixed-width 4/20-byte sets for the map loaders, a last key that dominates the index) with nil/empty/patterned values up to "
           "5000 bytes, written by the stream or skip-list writer under generated data/index compression, bloom sizing and write buffer, "
           "then read through 1-3 generated reader configurations (slice, skip-list, map4, map20, disk loader; read buffer; hash-check options) "
-          "and probed with every key, its neighbours, below-minimum, above-maximum and all bound pairs; non-trivial = >=2 keys, >=1 absent probe "
+          "and probed with every key, its neighbours, below-minimum, above-maximum and all bound pairs; one case in about seven is a lookup storm instead (a table of 3000 or 40000 keys, every key "
+          "and an absent neighbour looked up through ONE reader, ascending and then strided, because per-reader lookup state such as the disk index's offset cache only fills up after tens of thousands of probes); non-trivial = a storm, or >=2 keys, >=1 absent probe "
           "and >=1 range with both bounds strictly inside the key span; distinct = distinct case JSON"),
     level_text=("Contains/Get/Scan/ScanStartingAt/ScanRange are compared in both directions with a sorted map for each generated table and "
                 "reader configuration; inputs and configurations are unbounded, so sampled exploration with an exact oracle is the level."),
     level_note="map loaders are only exercised with keys and probes of exactly the mapper width (documented behaviour of MapBytes); comparator is bytes.Compare",
     assumptions=COMMON_ASSUME,
-    require_labels=["loader=slice", "loader=skiplist", "loader=disk", "loader=map4", "loader=map20", "writer=simple", "writer=stream", "last-entry-dominates", "range-below-minimum"],
+    require_labels=["loader=slice", "loader=skiplist", "loader=disk", "loader=map4", "loader=map20", "writer=simple", "writer=stream", "last-entry-dominates", "range-below-minimum", "lookup-storm"],
     quick=dict(shards=16, checks=60),
     thorough=dict(shards=16, checks=2000, timeout_s=3600),
 )
@@ -74,14 +75,14 @@ PROPS["C08"] = dict(
     technique="model-based PBT (rapid): fold-oldest-to-newest map oracle vs stacked reader / merger, on disk and on slice-backed inputs",
     rule=("case = 1..6 tables over <=13 adversarial keys (incl. the empty key, also handed over as nil the way table readers produce it) with "
           "nil (tombstone) / empty / non-empty values, empty tables and keys present in all tables; kind = stacked reader (Get, Contains, Scan, "
-          "ScanStartingAt, ScanRange over all bound pairs) | plain Merge on disjoint inputs | MergeCompact with each provided reduction; level = "
+          "ScanStartingAt, ScanRange over all bound pairs; in a third of these a contiguous run of >=2 tables with live values only is first stacked into an inner stacked reader that takes their place) | plain Merge on disjoint inputs | MergeCompact with each provided reduction; level = "
           "real tables on disk (generated options/loaders, merge output written and read back) | slice-backed readers; non-trivial = >=2 tables "
           "sharing a key with different values and a tombstone over a live value or vice versa; distinct = distinct case JSON"),
     level_text=("Results are compared with the latest-wins fold of the inputs in both directions (nothing missing, nothing extra, value of the right key). "
                 "Sampled exploration with an exact oracle; inputs are unbounded."),
     level_note="keys whose newest value is empty-but-not-nil may or may not appear in latest-wins scans (the statement is silent); for the skip-tombstones reduction length 0 counts as tombstone as its comment defines",
     assumptions=COMMON_ASSUME,
-    require_labels=["empty-key-present", "level=disk", "level=slice", "kind=super", "kind=merge", "kind=compact-latest", "kind=compact-skip"],
+    require_labels=["empty-key-present", "level=disk", "level=slice", "kind=super", "kind=merge", "kind=compact-latest", "kind=compact-skip", "nested-stack"],
     quick=dict(shards=16, checks=300),
     thorough=dict(shards=16, checks=10000, timeout_s=3600),
 )
@@ -108,7 +109,7 @@ PROPS["C12"] = dict(
     pkg="props/c12", level="fault_enumeration", engine="E-pos", design_ref="§4 C12",
     technique="PBT-generated files (rapid) x exhaustive single-fault enumeration: every truncation length, every record-header byte x replacement values, every unsupported file-header class",
     rule=("evaluation = one damaged copy of a generated file (1..12 nil/empty/patterned records, each compression type, write buffer {1,7,64,4096}, read buffer "
-          "{1,2,4,7,64,4096}) read by the sequential reader and by ReadNextAt at every written offset: (a) every truncation length 0..size, (b) every byte of every record "
+          "{1,2,4,7,64,4096}; every second file also gets a zero-filled record whose header checksum is a varint of fewer than five bytes, at a random position) read by the sequential reader and by ReadNextAt at every written offset: (a) every truncation length 0..size, (b) every byte of every record "
           "header set to all 255 other values (files <= 2 KiB) or to bit flips/0x00/0xff/continuation-bit set and cleared/marker bytes (longer files), (c) file-header version in "
           "{0,5,6,255,256,2^31,2^32-1} and compression in {4,5,255,256,2^31,2^32-1}; non-trivial = a cut strictly inside a record or the file header, any header-byte "
           "alteration, any file-header alteration; distinct = (case hash, position, value)"),
@@ -128,7 +129,7 @@ PROPS["C09"] = dict(
           "compression type) opened in one of two modes (verify-on-load default; SkipHashCheckOnLoad+EnableHashCheckOnReads) and read through Get of every key, Scan and ScanRange: "
           "every byte offset x {bit0 flipped, bit7 flipped, 0x00, 0xff, 0x91, 0x8d, 0x4c}, every truncation length, swaps of adjacent equal-length records; all damaged copies are "
           "non-trivial (each differs from the written file); distinct = (case hash, damage, mode)"),
-    level_text=("Single-fault damage space of the data file enumerated exhaustively per generated table under both verification modes; the oracle is 'error, or the written value' per key."),
+    level_text=("Single-fault damage space of the data file enumerated exhaustively per generated table under both verification modes; the oracle is 'error, or the written value' per key, and a scan may end without error only after the last key."),
     level_note="values written empty/nil are only required to stay empty without compression (zero checksum by format design, as the property states); multi-byte damage limited to truncation and swaps",
     assumptions=COMMON_ASSUME + ["tables are materialised on tmpfs (/dev/shm) when present"],
     require_labels=["byte:file-header", "byte:record-header", "byte:payload", "truncation", "swap", "dcomp=0", "dcomp=1", "dcomp=2", "dcomp=3"],
